@@ -254,7 +254,15 @@ Fixpoint io_copy (fuel : nat) (sb : B) (sl : L) (bh lh : nat) (written : Z) : B 
    cleaned name — they differ for names with a trailing separator or a final ".." *)
 Definition copy_dir (name : str) : str :=
   if Z.eqb copyfile_cleans_name 1 then path_dir (clean name) else path_dir name.
-Definition copy_file (sb : B) (sl : L) (name : str) (bh : nat) : B * L * option err :=
+(* the error branch of `lfh, err := layer.Create(name)`.  The tree as pinned
+   (copyfile_removes_after_failed_create = 0): `return err`; repaired (= 1): `layer.Remove(name); return err`
+   (result ignored) — a Create that failed half-way inside a layer made of several filesystems (a
+   CacheOnReadFs creates the file in its base, then in its layer) may have left an empty or truncated file *)
+Definition after_failed_create_gen (rm : Z) (sl : L) (name : str) : L :=
+  if Z.eqb rm 1 then fst (lstep sl (Remove name)) else sl.
+Definition after_failed_create : L -> str -> L := after_failed_create_gen copyfile_removes_after_failed_create.
+(* rm: the value of the switch copyfile_removes_after_failed_create (copy_file below is the source as it stands) *)
+Definition copy_file_gen (rm : Z) (sb : B) (sl : L) (name : str) (bh : nat) : B * L * option err :=
   let dir := copy_dir name in
   let '(sl0, ex) := l_exists sl dir in
   match ex with
@@ -302,10 +310,14 @@ Definition copy_file (sb : B) (sl : L) (name : str) (bh : nat) : B * L * option 
             let sl5 := fst (lstep sl4 (HClose lh)) in (sb3, sl5, Some (E KEIO))
           end
         end
-      | (sl2, r) => (sb, sl2, match res_err r with Some e => Some e | None => Some (E KOther) end)
+      | (sl2, r) =>
+        (* `lfh, err := layer.Create(name)` failed: see after_failed_create *)
+        (sb, after_failed_create_gen rm sl2 name, match res_err r with Some e => Some e | None => Some (E KOther) end)
       end
     end
   end.
+Definition copy_file : B -> L -> str -> nat -> B * L * option err :=
+  copy_file_gen copyfile_removes_after_failed_create.
 
 (* copyToLayer / copyFileToLayer: open the base (read-only resp. with the caller's flags),
    copy, close the base handle (deferred) *)
